@@ -928,6 +928,13 @@ func (u *Unit) specCall(e *SExpr, ctx *specCtx) (Val, error) {
 		}
 		u.reg.declConst("unix_epoch_ns", sInt)
 		return Val{T: goDiv(sx("-", x.T, "unix_epoch_ns"), "1000000"), Ty: types.Typ[types.Int64]}, nil
+	case "unixsec":
+		x, err := arg(0)
+		if err != nil {
+			return Val{}, err
+		}
+		u.reg.declConst("unix_epoch_ns", sInt)
+		return Val{T: goDiv(sx("-", x.T, "unix_epoch_ns"), "1000000000"), Ty: types.Typ[types.Int64]}, nil
 	case "atomic":
 		// atomic(x.f): the current value of the sync/atomic variable stored in field f
 		a, err := u.specAddr(e.Args[0], ctx)
